@@ -336,8 +336,8 @@ Definition corr_fuel : nat := 24.
 
 (* canonical text: identity classes of the caller's objects along the unfolding of the ORIGINAL graph,
    '|' the same for the LOADED graph (ids that are addresses of caller objects), '|' number of
-   id-named members, '|' schema nodes *)
-Definition predict (alloc : nat -> list addr -> addr) (h : heap) (root : oid) : pstr :=
+   id-named members [, '|' schema nodes] *)
+Definition predict (nodes : bool) (alloc : nat -> list addr -> addr) (h : heap) (root : oid) : pstr :=
   match dump true alloc h corr_fuel (RObj root) (init h) with
   | None => [63%N]
   | Some (sc, st) =>
@@ -346,5 +346,14 @@ Definition predict (alloc : nat -> list addr -> addr) (h : heap) (root : oid) : 
       ++ [124%N] ++
       show_nats (renum (filter (fun a => Nat.ltb a (length h)) (lunfold corr_fuel lh (sid sc))))
       ++ [124%N] ++ show_N (N.of_nat (length (d_files st)))
-      ++ [124%N] ++ show_N (N.of_nat (schema_nodes sc))
+      ++ (if nodes then [124%N] ++ show_N (N.of_nat (schema_nodes sc)) else [])
+  end.
+
+(* the same run WITHOUT pinning: what the loaded graph looks like when addresses of dead temporaries
+   are re-used (used by the harness to explain a disagreement, never as the expected value) *)
+Definition predict_unpinned (alloc : nat -> list addr -> addr) (h : heap) (root : oid) : pstr :=
+  match dump false alloc h corr_fuel (RObj root) (init h) with
+  | None => [63%N]
+  | Some (sc, st) =>
+      show_nats (renum (filter (fun a => Nat.ltb a (length h)) (lunfold corr_fuel (loads sc) (sid sc))))
   end.
